@@ -412,3 +412,12 @@ pub fn par_cases<C: Sync, F: Fn(usize, &C) -> CaseOut + Sync>(cases: &[C], f: F)
     }
     total
 }
+
+/// Marks a value as shareable between the worker threads although its type does not say so. Used for subjects that may
+/// contain interior mutability (a cache cell in the tree, say): every value is only ever touched by one worker at a
+/// time (one case = one value), which is all the explorers need.
+#[derive(Clone)]
+pub struct AssertSync<T>(pub T);
+unsafe impl<T> Sync for AssertSync<T> {}
+unsafe impl<T> Send for AssertSync<T> {}
+
